@@ -7,7 +7,7 @@ logical tree in every creation order x jobs x routing (sequential / pool, with
 every completion permutation of the pool) x hash-state cold/warm/touched.
 """
 
-CASE_TIMEOUT = 120  # seconds per pool task (the unchanged tree needs a small fraction of this)
+CASE_TIMEOUT = 300  # seconds per pool task (the unchanged tree needs a small fraction of this)
 
 import itertools
 import json
@@ -413,7 +413,8 @@ def run(ctx):
     ]
     ctx.require("perms_gt1", "nested_prefixes", "pool_runs", "pool_perms_nonidentity", "state_warm_runs",
                 "real_pool_runs")
-    cs = [{"part": "pure", "maxk": maxk, "slice": [i, 16]} for i in range(16)]
+    nsl = 16 if ctx.tier != "thorough" else 192
+    cs = [{"part": "pure", "maxk": maxk, "slice": [i, nsl]} for i in range(nsl)]
     for tname, tree in FS_TREES.items():
         rels = sorted(tree)
         orders = [list(p) for p in itertools.permutations(rels)]
@@ -439,4 +440,4 @@ def run(ctx):
         b, s = next(iter(coll.items()))
         ctx.violation("two-entry-sets-serialise-to-same-bytes", {"part": "pure", "entries": dict(sorted(s)[0])},
                       f"{sorted(s)} -> {b}")
-    ctx.determinism("run_case", cs[:2] + cs[16:18], first)
+    ctx.determinism("run_case", cs[:2] + cs[nsl:nsl + 2], first)
